@@ -1848,3 +1848,11 @@ for _pid in ("C09", "C10"):
     V("%s-rule4-two-ks" % _pid.lower(), _pid, "undecided", UT, "    if len(Ks) > 0:\n", "    if len(Ks) > 1:\n", what="rule 4 needs two common parents: a real defect, no longer accepted as a harmless guard (was silent); not decided")
     V("%s-rule1-two-parents" % _pid.lower(), _pid, "fire", UT, "    if len(pa(i, A)) > 0 and not pa(i, A) <= adj(j, A):", "    if len(pa(i, A)) > 1 and not pa(i, A) <= adj(j, A):", rule="RULES.rule_1", what="cardinality: decided in counting worlds")
     V("%s-silent-rule1-vacuous-guard" % _pid.lower(), _pid, "silent", UT, "    if len(pa(i, A)) > 0 and not pa(i, A) <= adj(j, A):", "    if len(pa(i, A)) >= 0 and not pa(i, A) <= adj(j, A):", what="a guard that always holds")
+
+# ------------------------------------------------------------------------------- round 12 inspired (C08 / C09: isolated nodes dropped before the search; two agents wrote it independently)
+_DROP = "    G = only_directed(P)\n    indexes = list(range(len(P)))"
+for _pid in ("C08", "C09"):
+    V("%s-names-from-reduced-matrix" % _pid.lower(), _pid, "fire", UT, _DROP, "    G = only_directed(P)\n    connected = [i for i in range(len(P)) if len(adj(i, P)) > 0]\n    P = P[connected, :][:, connected]\n    indexes = list(range(len(P)))",
+      rule="INDEX.init", what="names are positions in the reduced matrix: shifted after every dropped node")
+    V("%s-names-of-kept-nodes" % _pid.lower(), _pid, "undecided", UT, _DROP, "    G = only_directed(P)\n    connected = [i for i in range(len(P)) if len(adj(i, P)) > 0]\n    P = P[connected, :][:, connected]\n    indexes = list(connected)",
+      what="the kept nodes' own names: correct, another form")
